@@ -201,6 +201,7 @@ fn ob_mpsc_shared_window_cap2() { step_window(2); }
 #[kani::unwind(10)]
 fn ob_mpsc_shared_window_cap3() { step_window(3); }
 
+/// (MEASURED: > 16 GB of CBMC memory, nothing decided in 16 min: tier=probe, selected by no registered command.)
 /// Consumer side of the bounded MPSC on the stub table: tickets 0..k (k <= 3) are resolved, each either SET(value)
 /// or a SKIP tombstone (symbolic), ticket k is still EMPTY, the cursor stands at ticket 0.
 /// deq_run(out, max): `out` receives the SET values in ascending ticket order (per-producer FIFO), at most `max`;
@@ -255,7 +256,7 @@ fn step_deq(run: bool) {
   kani::cover!(true, "END");
 }
 
-// @obligation id=mpsc.shared.deq_run props=C01,C02,C09 kind=step tier=quick bound="capacity 3, stub table (8-slot chunk 0); 0..=3 resolved tickets each SET(any u8) or SKIP, max in 1..=3; cursor at ticket 0"
+// @obligation id=mpsc.shared.deq_run props=C01,C02,C09 kind=step tier=probe bound="capacity 3, stub table (8-slot chunk 0); 0..=3 resolved tickets each SET(any u8) or SKIP, max in 1..=3; cursor at ticket 0"
 #[kani::proof]
 #[kani::stub(std::thread::current::current, crate::verif_k_stubs::stub_thread_current)]
 #[kani::stub(parking_lot::RawMutex::lock_slow, crate::verif_k_stubs::stub_lock_slow)]
@@ -264,7 +265,7 @@ fn step_deq(run: bool) {
 #[kani::unwind(10)]
 fn ob_mpsc_shared_deq_run() { step_deq(true); }
 
-// @obligation id=mpsc.shared.deq_once props=C01,C02,C09 kind=step tier=quick bound="capacity 3, stub table (8-slot chunk 0); 0..=3 resolved tickets each SET(any u8) or SKIP; cursor at ticket 0"
+// @obligation id=mpsc.shared.deq_once props=C01,C02,C09 kind=step tier=probe bound="capacity 3, stub table (8-slot chunk 0); 0..=3 resolved tickets each SET(any u8) or SKIP; cursor at ticket 0"
 #[kani::proof]
 #[kani::stub(std::thread::current::current, crate::verif_k_stubs::stub_thread_current)]
 #[kani::stub(parking_lot::RawMutex::lock_slow, crate::verif_k_stubs::stub_lock_slow)]
